@@ -259,6 +259,23 @@ namespace logmessage::preprocessor {
         output.append("'."sv);
         return output;
     }
+
+    std::string RecursiveMacro::formatMessage() const
+    {
+        auto output = m_location.format();
+
+        output.reserve(
+            output.length()
+            + "Macro '"sv.length()
+            + macro.length()
+            + "' is used inside of its own expansion."sv.length()
+        );
+
+        output.append("Macro '"sv);
+        output.append(macro);
+        output.append("' is used inside of its own expansion."sv);
+        return output;
+    }
 }
 
 namespace logmessage::assembly {
